@@ -80,6 +80,8 @@ def run(chk):
     failpure.run_release_not_failed(chk, [("asmjit/core/virtmem.cpp", r"asmjit::VirtMem::[A-Za-z_0-9]+$"), ("asmjit/core/jitallocator.cpp", r"asmjit::JitAllocator")])
     from lib import outclean
     outclean.run(chk)
+    from lib import unlink
+    unlink.run(chk)
 
     return chk.finish(
         level="other",
